@@ -388,11 +388,24 @@ func (g *genCtx) genUpload(ci int, o attOpts) {
 				offs[i], offs[j] = offs[j], offs[i]
 			}
 		}
+		var held [][2]int
 		for _, c := range offs {
+			if o.withhold && g.r.chance(35) {
+				held = append(held, c) // lost in the first round: the new file's report must list it
+				continue
+			}
 			units = append(units, SentFrame{Chunk: true, File: fi + 1, Off: c[0], Body: nf.Data[c[0] : c[0]+c[1]], Valid: true,
 				Raw: chunkUnit(dialect, string(nf.Name), c[0], nf.Data[c[0]:c[0]+c[1]]), Name: nf.Name})
 		}
 		ctl(0x1212, body1211(string(nf.Name), nf.Type, size), fi+1, string(nf.Name))
+		if len(held) > 0 {
+			for _, c := range held {
+				units = append(units, SentFrame{Chunk: true, File: fi + 1, Off: c[0], Body: nf.Data[c[0] : c[0]+c[1]], Valid: true,
+					Raw: chunkUnit(dialect, string(nf.Name), c[0], nf.Data[c[0]:c[0]+c[1]]), Name: nf.Name})
+			}
+			ctl(0x1212, body1211(string(nf.Name), nf.Type, size), fi+1, string(nf.Name))
+			p.Faults = append(p.Faults, "pkt.loss")
+		}
 		p.Faults = append(p.Faults, "input.file_name_reused_by_later_alarm")
 	}
 	p.Expect.Frames[ci] = units
